@@ -103,7 +103,7 @@ def run_case(case, ses):
             vstar = [float(fval(model, v)) for v in vs]
             data = dict(spec=spec, row=row['label'], v=vstar)
             good, info = replay(data, want_info=True)
-            if not good and (spec['atom'] in detgen.EXP_ATOMS or spec.get('base') in ('exp', 'log')):
+            if not good and (spec['atom'] in detgen.EXP_FAMILY or spec.get('base') in ('exp', 'log')):
                 # cone-term abstraction: the abstract model need not be a real point (phi is uninterpreted).
                 # Look for a real one: solve the REAL compiled program (ECOS, true exp cone) for random linear
                 # objectives over the user's columns and evaluate the user's constraint there.
